@@ -417,7 +417,7 @@ impl Check for C19 {
                     }
                 }
             }
-            if base.stdout != r.stdout || r.is_ok() != (base.code == Some(0)) {
+            if base.stdout != r.stdout || r.is_ok() != (base.code == Some(0)) || !(base.code == Some(0) || base.code == Some(103)) {
                 let c = Case::new(src.clone(), 1, format!("program {:?}", pname));
                 let o = Outcome { class: if base.code == Some(0) { Class::Ok } else { Class::Err }, stdout: base.stdout.clone(), msg: base.stderr.clone() };
                 ctx.report(&c, Some(&r), &o, "output", format!("{:?}: printed {:?} (exit {:?}), reference {:?}", pname, String::from_utf8_lossy(&base.stdout), base.code, String::from_utf8_lossy(&r.stdout)));
